@@ -50,7 +50,7 @@ Qed.
 Lemma js_receiver_reify en pc x s : js_ok en x ->
   js_receiver (reify_e en pc x) s = if needs_paren en x then ("(" ++ s ++ ")")%string else s.
 Proof.
-  destruct x as [n|k|n|i|i|n|n|o a b|a|a|f args|f args|items|items|fam pid a|pid it mn]; intros Hok; cbn [reify_e needs_paren js_receiver]; try reflexivity.
+  destruct x as [n|k|n|i|i|n|n|o a b|a|a|f args|f args|items|items|fam pid a|pid it mn|tk ti]; intros Hok; cbn [reify_e needs_paren js_receiver]; try reflexivity.
   - rewrite str_of_int_no_quote. reflexivity.
   - destruct (nth k (e_consts en) (CInt 0)); cbn [const_node js_receiver]; [|rewrite str_of_int_no_quote; reflexivity].
     match goal with |- context[starts_with ?q ?t] => destruct (starts_with q t) end; reflexivity.
@@ -60,6 +60,7 @@ Proof.
   - rewrite reify_args_eq. destruct (reify_args en pc items); reflexivity.
   - rewrite reify_args_eq. destruct (reify_args en pc items); reflexivity.
   - destruct fam; reflexivity.
+  - destruct tk; reflexivity.
 Qed.
 
 (* ---- object properties ---- *)
@@ -77,6 +78,7 @@ Proof.
   - match goal with |- context [let '(a, b) := ?X in _] => destruct X end; reflexivity.
   - match goal with |- context [let '(a, b) := ?X in _] => destruct X end. destruct items; reflexivity.
   - destruct f; reflexivity.
+  - destruct k; reflexivity.
 Qed.
 
 Lemma objref_js fm en pc x : PJs fm en x -> js_ok en x -> forall k po ind,
@@ -106,6 +108,23 @@ Proof. intros E. cbn [gen_js]. rewrite E. reflexivity. Qed.
 Lemma menuitem_js p m i ind fm om oi : gen_js m 0%nat fm = om -> gen_js i 0%nat fm = oi ->
   gen_js (MenuItemAcc p m i) ind fm = (om ++ "." ++ oi)%string.
 Proof. intros E1 E2. cbn [gen_js]. rewrite E1, E2. reflexivity. Qed.
+
+Lemma append_nil_r0 s : (s ++ "")%string = s.
+Proof. induction s as [|c s IH]; simpl; [reflexivity|]. rewrite IH. reflexivity. Qed.
+Lemma sys_owners_table : forallb (fun p : string * string => sys_owner_ok (snd p)) SYSTEM_PROPERTIES = true.
+Proof. vm_compute. reflexivity. Qed.
+Lemma assoc_in0 (k : string) (t : list (string * string)) v : assoc_str k t = Some v -> In (k, v) t.
+Proof.
+  induction t as [|[k' v'] t IH]; simpl; [discriminate|].
+  destruct (String.eqb k k') eqn:E; intros H.
+  - injection H as <-. apply String.eqb_eq in E. subst. left. reflexivity.
+  - right. auto.
+Qed.
+Lemma sys_owner name : sys_owner_ok (assoc_or name SYSTEM_PROPERTIES) = true.
+Proof.
+  unfold assoc_or. destruct (assoc_str name SYSTEM_PROPERTIES) as [v|] eqn:E; [|reflexivity].
+  exact (proj1 (forallb_forall _ _) sys_owners_table _ (assoc_in0 _ _ _ E)).
+Qed.
 
 Theorem gen_js_is_pp fm en : forall e, PJs fm en e.
 Proof.
@@ -152,6 +171,13 @@ Proof.
   - (* menu item properties *) intros pid it mn IHi IHm [Hi Hm] pc ind. cbn [reify_e to_js].
     erewrite accessor_js; [|apply menuitem_js; [apply (objref_js fm en _ mn IHm Hm)|apply (objref_js fm en pc it IHi Hi)]|reflexivity].
     cbn [pp_js js_leaf]. repeat rewrite sapp_assoc. reflexivity.
+  - (* the <special / date-time / system property> *) intros k i _ pc ind. cbn [reify_e to_js].
+    destruct k; cbn [the_node the_table]; try reflexivity.
+    { cbn [gen_js js_leaf pp_js map]. unfold join. cbn [concat_all map]. repeat rewrite sapp_assoc. rewrite ?append_nil_r0. reflexivity. }
+    pose proof (sys_owner (nth i (map fst SYSTEM_PROPERTIES) "")) as Ho. unfold sys_owner_ok in Ho.
+    apply andb_true_iff in Ho. destruct Ho as [Ho _]. apply andb_true_iff in Ho. destruct Ho as [Hme Htell].
+    apply negb_true_iff in Hme. apply negb_true_iff in Htell.
+    erewrite accessor_js; [reflexivity | | exact Htell]. cbn [gen_js js_leaf]. rewrite Hme, andb_false_r. reflexivity.
   - intros _ pc ind. reflexivity.
   - intros x l IHx IHl [Hx Hl] pc ind. cbn [reify_args]. destruct (reify_args en (pc + zlen (compile_e x)) l) as [ns pa] eqn:Er.
     cbn [fst map]. rewrite (IHx Hx). specialize (IHl Hl (pc + zlen (compile_e x))%Z ind). rewrite Er in IHl. cbn [fst] in IHl. rewrite IHl. reflexivity.
@@ -185,6 +211,7 @@ Proof.
   - unfold js_var. destruct (fm && _); exact I.
   - destruct (js_binop o); unfold js_recv; try destruct (needs_paren en x1); exact I.
   - destruct f; try exact I. reflexivity.
+  - destruct k; exact I.
 Qed.
 Lemma read_count j t : (match j with JIdx m0 _ => is_menubar m0 = false | _ => True end) ->
   read_js (JDot (JDot j t) (js_una "number")) = option_map (NChunkCount t) (read_js j).
@@ -232,6 +259,14 @@ Proof.
     cbn [to_js name_e read_js]. change (is_menubar (JDot (JIdx js_menubar (js_raw_or en mn (to_js fm en mn))) "item")) with false.
     cbn iota. change (is_menubar js_menubar) with true. change (String.eqb "item" "item") with true. cbn [andb].
     rewrite Hri, Hrm. reflexivity.
+  - intros k i. cbn [to_js name_e]. destruct k.
+    + unfold js_prop. cbn [read_js].
+      destruct (assoc_str (nth i (the_table TSpecial) "") VARIABLE_KNOWN_PROPERTIES) as [o|] eqn:E.
+      * pose proof (proj1 (forallb_forall _ _) owners_not_global _ (assoc_in _ _ _ E)) as H. cbn [snd] in H.
+        apply negb_true_iff in H. rewrite H. reflexivity.
+      * destruct fm; reflexivity.
+    + reflexivity.
+    + cbn [read_js]. destruct (String.eqb _ "_global"); reflexivity.
   - constructor.
   - intros x l Hx Hl. constructor; assumption.
 Qed.
